@@ -295,6 +295,21 @@ def guarded_by_true_of(body, bb, pred):
     return None
 
 
+def guarded_by_false_of(body, bb, pred):
+    """Block bb is reachable only through the zero edge of a bool switch whose operand satisfies pred(slice)."""
+    for sb, t in body.switches():
+        if t["op"]["k"] not in ("copy", "move"):
+            continue
+        zero = [tb for v, tb in t["targets"] if v == 0]
+        if not zero or zero[0] == t["otherwise"]:
+            continue
+        tgt = zero[0]
+        if body.edge_dominates((sb, tgt), bb) or (body.dominates(tgt, bb) and len([p for p in body.pred(tgt)]) == 1):
+            if pred(body.slice(t["op"], at=sb)):
+                return (sb, tgt)
+    return None
+
+
 # ------------------------------------------------------------------------------------------------
 # enum discriminant switches
 
@@ -398,3 +413,63 @@ def _body_calls_deep(crate, b, pats, depth):
             if _body_calls_deep(crate, crate.bodies[rv["def"]], pats, depth - 1):
                 return True
     return False
+
+
+def _bool_vals(body, l, at, R, depth):
+    """Possible constant values of bool local l at block `at`, considering only definitions inside R ('?' = unknown)."""
+    vals = set()
+    if depth > 4:
+        return {"?"}
+    for d in body.defs().get(l, ()):
+        if d["kind"] == "param":
+            vals.add("?")
+            continue
+        if d.get("bb", -1) not in R or not body.def_reaches(d, at):
+            continue
+        if d["kind"] == "assign" and d["rv"]["k"] == "use" and not d["lhs"]["p"]:
+            o = d["rv"]["op"]
+            if o.get("k") == "const" and isinstance(o.get("v"), bool):
+                vals.add(o["v"])
+            elif o.get("k") in ("copy", "move") and not o["place"]["p"] and body.locals[o["place"]["l"]]["ty"] == "bool":
+                vals |= _bool_vals(body, o["place"]["l"], d["bb"], R, depth + 1)
+            else:
+                vals.add("?")
+        else:
+            vals.add("?")
+    return vals
+
+
+def variant_reach(body, crate, adt, V, place_pred=None):
+    """Blocks reachable when the inspected value of enum `adt` is the variant V: every discriminant switch on such a
+    place keeps only the edges whose variant set contains V, and boolean flags whose reaching definitions (inside the
+    specialised graph) are all the same constant are folded too (`let b = matches!(x, A | B); if b {..}`)."""
+    avoid = set()
+    for sb, t, pl, d in discr_switches(body):
+        if head_of_type(pl.get("ty", "")) != adt:
+            continue
+        if place_pred and not place_pred(pl):
+            continue
+        for tgt, vs in edge_variants(crate, t, adt).items():
+            if V not in vs:
+                avoid.add((sb, tgt))
+    R = body.reach([0], avoid_edges=avoid)
+    for _ in range(8):
+        changed = False
+        for sb, t in body.switches():
+            if sb not in R or t["op"].get("k") not in ("copy", "move") or t["op"]["place"]["p"]:
+                continue
+            l = t["op"]["place"]["l"]
+            if body.locals[l]["ty"] != "bool":
+                continue
+            vals = _bool_vals(body, l, sb, R, 0)
+            zero = [tb for v, tb in t["targets"] if v == 0]
+            if vals == {True} and zero and (sb, zero[0]) not in avoid and zero[0] != t["otherwise"]:
+                avoid.add((sb, zero[0]))
+                changed = True
+            elif vals == {False} and zero and (sb, t["otherwise"]) not in avoid and zero[0] != t["otherwise"]:
+                avoid.add((sb, t["otherwise"]))
+                changed = True
+        if not changed:
+            break
+        R = body.reach([0], avoid_edges=avoid)
+    return R
